@@ -111,8 +111,10 @@ Proof.
   apply N.eqb_eq in H1. apply N.eqb_eq in H2. subst. reflexivity.
 Qed.
 
-(* the round trip through Col26's model of the scanner (u32 arithmetic, panics on overflow) *)
-Lemma merge_ref_roundtrip_c26 : forall st lower d,
+(* merge_ref_roundtrip: every legal spelling of a reference decodes to its corners (through
+   Col26.get_dimension, the model of the hardened scanner; Col26_proofs.get_dimension_pair /
+   get_dimension_single) *)
+Theorem merge_ref_roundtrip : forall st lower d,
   dims_ok ROW_LIMIT COL_LIMIT d -> ref_style_legal st d = true ->
   get_dimension (render_ref st lower d) = Ok d.
 Proof.
@@ -132,7 +134,7 @@ Proof.
   unfold render_ref. cbn [fst snd]. destruct lower; [rewrite get_dimension_lower|]; exact G.
 Qed.
 
-(* ------------------------------------------------------------------ the hardened scanner *)
+(* ------------------------------------------------------------------ totality *)
 (* an outcome that is a value or an error: no panic, no fuel exhaustion *)
 Definition safe (A : Type) (o : outcome A) : Prop :=
   match o with Ok _ | Err _ => True | Panic | OutOfFuel => False end.
@@ -144,150 +146,22 @@ Proof. intros A B [a|e| |] f H F; cbn in *; auto. Qed.
 Lemma safe_not_panic : forall (A : Type) (o : outcome A), safe o -> o <> Panic /\ o <> OutOfFuel.
 Proof. intros A [a|e| |] H; cbn in H; try contradiction; split; discriminate. Qed.
 
-Lemma sat_add_small : forall a b, a + b <= U32MAX -> sat_add64 a b = a + b.
-Proof. intros a b H. unfold sat_add64. apply N.min_l. unfold U32MAX, U64MAX in *. lia. Qed.
-Lemma sat_mul_small : forall a b, a * b <= U32MAX -> sat_mul64 a b = a * b.
-Proof. intros a b H. unfold sat_mul64. apply N.min_l. unfold U32MAX, U64MAX in *. lia. Qed.
+Lemma not_panic_safe : forall (A : Type) (o : outcome A), o <> Panic /\ o <> OutOfFuel -> safe o.
+Proof. intros A [a|e| |] [H1 H2]; cbn; auto. Qed.
 
-Definition st_bounded (s : scan_state) : Prop := s_row s <= U32MAX /\ s_col s <= U32MAX.
-
-Lemma scan_letter_h_agrees : forall base c s s', st_bounded s ->
-  scan_letter base c s = Ok s' -> scan_letter_h base c s = Ok s' /\ st_bounded s'.
-Proof.
-  intros base c s s' [B1 B2] H. unfold scan_letter in H. unfold scan_letter_h.
-  destruct (s_readrow s).
-  - destruct (s_row s =? 0); [discriminate|]. cbn [obind s_row s_col s_pow] in *.
-    unfold mul32, add32 in H.
-    destruct ((c - base + 1) * 1 <=? U32MAX) eqn:E1; cbn [obind] in H; [|discriminate].
-    destruct (s_col s + (c - base + 1) * 1 <=? U32MAX) eqn:E2; cbn [obind] in H; [|discriminate].
-    destruct (1 * 26 <=? U32MAX) eqn:E3; cbn [obind] in H; [|discriminate].
-    apply N.leb_le in E1. apply N.leb_le in E2. apply N.leb_le in E3.
-    inversion H; subst. rewrite (sat_mul_small _ _ E1), (sat_add_small _ _ E2), (sat_mul_small _ _ E3).
-    split; [reflexivity|]. split; cbn [s_row s_col]; assumption.
-  - cbn [obind] in *. unfold mul32, add32 in H.
-    destruct ((c - base + 1) * s_pow s <=? U32MAX) eqn:E1; cbn [obind] in H; [|discriminate].
-    destruct (s_col s + (c - base + 1) * s_pow s <=? U32MAX) eqn:E2; cbn [obind] in H; [|discriminate].
-    destruct (s_pow s * 26 <=? U32MAX) eqn:E3; cbn [obind] in H; [|discriminate].
-    apply N.leb_le in E1. apply N.leb_le in E2. apply N.leb_le in E3.
-    inversion H; subst. rewrite (sat_mul_small _ _ E1), (sat_add_small _ _ E2), (sat_mul_small _ _ E3).
-    split; [reflexivity|]. split; cbn [s_row s_col]; assumption.
-Qed.
-
-Lemma scan_char_h_agrees : forall c s s', st_bounded s ->
-  scan_char c s = Ok s' -> scan_char_h c s = Ok s' /\ st_bounded s'.
-Proof.
-  intros c s s' B H. unfold scan_char in H. unfold scan_char_h.
-  destruct (is_digit c).
-  - destruct B as [B1 B2]. destruct (s_readrow s); [|discriminate].
-    unfold mul32, add32 in H.
-    destruct ((c - ch_0) * s_pow s <=? U32MAX) eqn:E1; cbn [obind] in H; [|discriminate].
-    destruct (s_row s + (c - ch_0) * s_pow s <=? U32MAX) eqn:E2; cbn [obind] in H; [|discriminate].
-    destruct (s_pow s * 10 <=? U32MAX) eqn:E3; cbn [obind] in H; [|discriminate].
-    apply N.leb_le in E1. apply N.leb_le in E2. apply N.leb_le in E3.
-    inversion H; subst. rewrite (sat_mul_small _ _ E1), (sat_add_small _ _ E2), (sat_mul_small _ _ E3).
-    split; [reflexivity|]. split; cbn [s_row s_col]; assumption.
-  - destruct (is_upper c); [apply scan_letter_h_agrees; assumption|].
-    destruct (is_lower c); [apply scan_letter_h_agrees; assumption|discriminate].
-Qed.
-
-Lemma scan_loop_h_agrees : forall rs s s', st_bounded s ->
-  scan_loop rs s = Ok s' -> scan_loop_h rs s = Ok s' /\ st_bounded s'.
-Proof.
-  induction rs as [|c rs IH]; intros s s' B H; cbn [scan_loop scan_loop_h] in *.
-  - inversion H; subst. auto.
-  - destruct (scan_char c s) as [s1| | |] eqn:E; cbn [obind] in H; try discriminate.
-    destruct (scan_char_h_agrees c B E) as [E' B']. rewrite E'. cbn [obind]. apply IH; assumption.
-Qed.
-
-Lemma get_row_column_h_agrees : forall p x, get_row_column p = Ok x -> get_row_column_h p = Ok x.
-Proof.
-  intros p x H. unfold get_row_column, get_row_and_optional_column in H.
-  unfold get_row_column_h, get_row_and_optional_column_h.
-  destruct (scan_loop (rev p) scan_init) as [s| | |] eqn:E; cbn [obind] in H; try discriminate.
-  assert (B0 : st_bounded scan_init) by (split; cbn; unfold U32MAX; lia).
-  destruct (scan_loop_h_agrees _ B0 E) as [E' [B1 B2]]. rewrite E'. cbn [obind].
-  destruct (s_row s =? 0); [discriminate|]. cbn [obind fst snd] in H.
-  destruct (N.ltb_spec U32MAX (s_row s - 1)); [lia|].
-  destruct (s_col s =? 0); cbn [obind fst snd] in *; [discriminate|].
-  destruct (N.ltb_spec U32MAX (s_col s - 1)); [lia|]. cbn [obind fst snd]. exact H.
-Qed.
-
-Lemma collect_parts_h_agrees : forall ps xs, collect_parts ps = Ok xs -> collect_parts_h ps = Ok xs.
-Proof.
-  induction ps as [|p ps IH]; intros xs H; cbn [collect_parts collect_parts_h] in *; [exact H|].
-  destruct (get_row_column p) as [x| | |] eqn:E; cbn [obind] in H; try discriminate.
-  rewrite (get_row_column_h_agrees _ E). cbn [obind].
-  destruct (collect_parts ps) as [ys| | |] eqn:E2; cbn [obind] in H; try discriminate.
-  rewrite (IH _ eq_refl). exact H.
-Qed.
-
-(* wherever Col26's model of get_dimension answers with a value, the hardened scanner gives the
-   same value *)
-Lemma get_dimension_h_agrees : forall s d, get_dimension s = Ok d -> get_dimension_h s = Ok d.
-Proof.
-  intros s d H. unfold get_dimension in H. unfold get_dimension_h.
-  destruct (collect_parts (split_on ch_colon s [])) as [parts| | |] eqn:E; cbn [obind] in H;
-    try discriminate.
-  rewrite (collect_parts_h_agrees _ E). cbn [obind].
-  destruct parts as [|p0 [|p1 [|p2 rest]]]; try exact H.
-  destruct (sub32 (fst p1) (fst p0)); cbn [obind] in H; try discriminate.
-  destruct (sub32 (snd p1) (snd p0)); cbn [obind] in H; try discriminate. exact H.
-Qed.
-
-(* merge_ref_roundtrip: every legal spelling of a reference decodes to its corners *)
-Theorem merge_ref_roundtrip : forall st lower d,
-  dims_ok ROW_LIMIT COL_LIMIT d -> ref_style_legal st d = true ->
-  get_dimension_h (render_ref st lower d) = Ok d.
-Proof.
-  intros st lower d H L. apply get_dimension_h_agrees. apply merge_ref_roundtrip_c26; assumption.
-Qed.
-
-(* the hardened scanner is total: no byte string makes it panic *)
-Lemma scan_char_h_safe : forall c s, safe (scan_char_h c s).
-Proof.
-  intros c s. unfold scan_char_h, scan_letter_h.
-  destruct (is_digit c); [destruct (s_readrow s); exact I|].
-  destruct (is_upper c); [destruct (s_readrow s); [destruct (s_row s =? 0)|]; exact I|].
-  destruct (is_lower c); [destruct (s_readrow s); [destruct (s_row s =? 0)|]; exact I|exact I].
-Qed.
-
-Lemma scan_loop_h_safe : forall rs s, safe (scan_loop_h rs s).
-Proof.
-  induction rs as [|c rs IH]; intros s; cbn [scan_loop_h]; [exact I|].
-  apply safe_bind; [apply scan_char_h_safe|intros a; apply IH].
-Qed.
-
-Lemma get_row_column_h_safe : forall p, safe (get_row_column_h p).
-Proof.
-  intros p. unfold get_row_column_h, get_row_and_optional_column_h.
-  apply safe_bind.
-  - apply safe_bind; [apply scan_loop_h_safe|]. intros s.
-    destruct (s_row s =? 0); [exact I|]. destruct (U32MAX <? s_row s - 1); [exact I|].
-    destruct (s_col s =? 0); [exact I|]. destruct (U32MAX <? s_col s - 1); exact I.
-  - intros [r [c|]]; exact I.
-Qed.
-
-Lemma collect_parts_h_safe : forall ps, safe (collect_parts_h ps).
-Proof.
-  induction ps as [|p ps IH]; cbn [collect_parts_h]; [exact I|].
-  apply safe_bind; [apply get_row_column_h_safe|]. intros x.
-  apply safe_bind; [exact IH|]. intros xs. exact I.
-Qed.
-
-Theorem get_dimension_h_safe : forall s, safe (get_dimension_h s).
-Proof.
-  intros s. unfold get_dimension_h. apply safe_bind; [apply collect_parts_h_safe|].
-  intros [|p0 [|p1 [|p2 rest]]]; exact I.
-Qed.
+(* the scanner is total: no byte string makes it panic (Col26_proofs.get_dimension_total, the
+   get_dimension conjunct of C14_no_panic_a1) *)
+Theorem get_dimension_safe : forall s, safe (get_dimension s).
+Proof. intros s. apply not_panic_safe. apply get_dimension_total. Qed.
 
 (* a reversed reference (B2:A1) is accepted as written; 11-digit rows and 8-letter columns are
-   errors, not overflows *)
+   errors, not overflows; row 4294967296 (index u32::MAX) is the last one accepted *)
 Example hardened_scanner_examples :
-  get_dimension_h [66; 50; 58; 65; 49] = Ok ((1, 1), (0, 0)) /\
-  get_dimension [66; 50; 58; 65; 49] = Panic /\
-  get_dimension_h [65; 57; 57; 57; 57; 57; 57; 57; 57; 57; 57; 57] = Err E_OUT_OF_RANGE /\
-  get_dimension_h [65; 65; 65; 65; 65; 65; 65; 65; 49] = Err E_OUT_OF_RANGE /\
-  get_dimension_h [65; 52; 50; 57; 52; 57; 54; 55; 50; 57; 54] = Ok ((4294967295, 0), (4294967295, 0)).
+  get_dimension [66; 50; 58; 65; 49] = Ok ((1, 1), (0, 0)) /\
+  get_dimension [65; 57; 57; 57; 57; 57; 57; 57; 57; 57; 57; 57] = Err E_RANGE /\
+  get_dimension [65; 65; 65; 65; 65; 65; 65; 65; 49] = Err E_RANGE /\
+  get_dimension [65; 52; 50; 57; 52; 57; 54; 55; 50; 57; 54] = Ok ((4294967295, 0), (4294967295, 0)) /\
+  get_dimension [65; 52; 50; 57; 52; 57; 54; 55; 50; 57; 55] = Err E_RANGE.
 Proof. repeat split; vm_compute; reflexivity. Qed.
 
 Lemma dims_ok_weaken : forall R C R' C' d, R <= R' -> C <= C' -> dims_ok R C d -> dims_ok R' C' d.
@@ -1752,7 +1626,7 @@ Proof.
   destruct e as [n attrs|n|t|t]; try exact IH.
   destruct (str_eqb (local_name n) s_mergeCell); [|exact IH].
   destruct (first_attr attrs s_ref) as [v|]; [|exact IH].
-  apply safe_bind; [apply get_dimension_h_safe|]. intros d.
+  apply safe_bind; [apply get_dimension_safe|]. intros d.
   apply safe_bind; [exact IH|]. intros rest. exact I.
 Qed.
 
@@ -1762,7 +1636,7 @@ Proof.
   destruct e as [n attrs|n|t|t]; try exact IH.
   - destruct (str_eqb (local_name n) s_mergeCell); [|exact IH].
     destruct (first_attr attrs s_ref) as [v|]; [|exact IH].
-    apply safe_bind; [apply get_dimension_h_safe|]. intros d.
+    apply safe_bind; [apply get_dimension_safe|]. intros d.
     apply safe_bind; [exact IH|]. intros rest. exact I.
   - destruct (str_eqb (local_name n) s_mergeCells); [exact I|exact IH].
 Qed.
@@ -1865,7 +1739,7 @@ Qed.
 (* the header / totals / insert-row arithmetic: every u32 operation is checked *)
 Theorem table_dims_safe : forall m, safe (table_dims m).
 Proof.
-  intros m. unfold table_dims. apply safe_bind; [apply get_dimension_h_safe|].
+  intros m. unfold table_dims. apply safe_bind; [apply get_dimension_safe|].
   intros [[sr sc] [er ec]].
   apply safe_bind.
   { destruct (tm_header m =? 0); [exact I|]. destruct (sr + tm_header m <=? U32MAX); exact I. }
@@ -2119,7 +1993,7 @@ Proof. repeat split; vm_compute; reflexivity. Qed.
 Example ex_no_panic_nonvacuous :
   Forall (fun sp => rfind_slash (snd sp) <> None) (sheets_of ex_wb) /\
   parse_merge_cells [1; 0; 0; 0; 1; 0; 0; 0; 1] = Err E_LEN /\
-  get_dimension_h [66; 50; 58; 65; 49] = Ok ((1, 1), (0, 0)).
+  get_dimension [66; 50; 58; 65; 49] = Ok ((1, 1), (0, 0)).
 Proof.
   split; [|split; vm_compute; reflexivity].
   repeat constructor. vm_compute. discriminate.
